@@ -8,7 +8,7 @@
     [C12_status_readable] below. *)
 From Coq Require Import List Arith Bool NArith Permutation.
 From MWF Require Import Base.Util Base.Str Status.Csv Status.CsvProofs Status.Rows Status.RowsProofs
-  Status.Lock Status.LockProofs Status.AtomicTable Status.LockCase Status.Consist
+  Status.Lock Status.LockProofs Status.AtomicTable Status.LockCase Status.ExecRows Status.Consist
   Gen.StatusData Status.TData.
 From MWF Require Exec.ExecBase Exec.ExecRun Status.ExecJobs.
 Import ListNotations.
@@ -168,11 +168,10 @@ Print Assumptions C12_run_acc_states.
     the identifier of its LAST successful submission at the adapter, "--" if
     there was none ([job_column_ok], the trace-level monitor evaluated on the
     implementation's status.csv after every poll of the generated histories).
-    Partial with respect to DESIGN's C12_consistent: the Job ID column is tied to
-    the adapter trace; the State and Number Restarts columns are tied to the
-    model's record ([C12_exec_row_content]) but not re-derived from the report /
-    restart-attempt trace here (that coupling is the subject of C04/C06). *)
-Theorem C12_consistent_trace_partial : forall c eg ps sk acck (rg : graph) statics times,
+    This ties the Job ID column to the ADAPTER trace (an observable independent
+    of the records); [C12_consistent_trace] below ties State / Job ID / Number
+    Restarts to the execution model's state after the same polls. *)
+Theorem C12_consistent_jobid_trace : forall c eg ps sk acck (rg : graph) statics times,
   In (sk, acck) (ExecJobs.run_acc c eg (ExecBase.init eg) [] ps) ->
   instances rg 0 = seq 1 (List.length eg) ->
   let recs := exec_recs statics times sk in
@@ -180,7 +179,25 @@ Theorem C12_consistent_trace_partial : forall c eg ps sk acck (rg : graph) stati
   jobs_coupled rg 0 recs (shift acck) = true /\
   job_column_ok rg 0 recs (shift acck) (snd (model_obs rg 0 recs)) = true.
 Proof. exact consistent_trace. Qed.
-Print Assumptions C12_consistent_trace_partial.
+Print Assumptions C12_consistent_jobid_trace.
+
+(** State, Job ID and Number Restarts together, against the execution model:
+    after EVERY poll of EVERY history the table the status command reads back
+    shows, for every instance, exactly the state / latest job id / restart count
+    of the model's record -- what the reports delivered so far dictate through
+    the dispatch logic of execute_ready_steps.  [shown_ok] is the monitor
+    evaluated (with the model's rows computed inside Coq from the poll inputs
+    the real run saw) on the implementation's status.csv after every poll. *)
+Theorem C12_consistent_trace : forall c eg ps sk r (name : nat -> str) statics times (rg : graph),
+  In (sk, r) (ExecRun.run_states c eg (ExecBase.init eg) ps) ->
+  let n := List.length (ExecBase.recs sk) in
+  let recs := exec_recs statics times sk in
+  (forall x, x < n -> sr_name (nth x statics (mkStatic [] [] [])) = name x) ->
+  instances rg 0 = seq 1 n ->
+  valid rg 0 recs = true -> H12_rows rg 0 recs = true ->
+  shown_ok name (ExecRun.rows_of sk) (snd (model_obs rg 0 recs)) = true.
+Proof. exact consistent_every_poll. Qed.
+Print Assumptions C12_consistent_trace.
 
 Theorem C12_exec_row_content : forall statics times sk x,
   x < List.length (ExecBase.recs sk) ->
@@ -427,4 +444,19 @@ Proof. vm_compute. reflexivity. Qed.
 Example ex_job_column_rejects_stale :
   job_column_ok ex_rg 0 (exec_recs ex_statics ex_times (fst ex_last)) [(1, 0); (1, 1); (2, 2); (1, 7)]
                 (snd (model_obs ex_rg 0 (exec_recs ex_statics ex_times (fst ex_last)))) = false.
+Proof. vm_compute. reflexivity. Qed.
+
+Example ex_history_shown :
+  shown_ok node_name (ExecRun.rows_of (fst ex_last))
+           (snd (model_obs ex_rg 0 (exec_recs ex_statics ex_times (fst ex_last)))) = true.
+Proof. vm_compute. reflexivity. Qed.
+
+(** [shown_ok] rejects a table whose State column is stale (n0 still TIMEDOUT
+    although FINISHED was delivered) *)
+Example ex_history_shown_rejects_stale :
+  shown_ok node_name (ExecRun.rows_of (fst ex_last))
+           (parse (render status_header
+                     [[s "n0"; s "1"; s "n0"; s "TIMEDOUT"; s "--"; s "--"; s "--"; s "--"; s "--"; s "1"; []];
+                      [s "n1"; s "2"; s "n1"; s "PENDING"; s "--"; s "--"; s "--"; s "--"; s "--"; s "0"; []]]))
+  = false.
 Proof. vm_compute. reflexivity. Qed.
